@@ -271,25 +271,48 @@ theorem resolve_user_spec {A : Type} (lib : Library A ℂ) (ug : List (UserGate 
     | _ + 2 => rfl
 -- non-vacuity: a table with a one-parameter function (here `a ↦ [[a, 0], [0, 1]]`) shadowing the library's X
 example : resolveGate (⟨fun _ _ => some (1, [[0, 1], [1, 0]]), fun _ => 1⟩ : Library ℂ ℂ)
-      [⟨"X", .fn 1, 1, fun a => [[a.getD 0, 0], [0, 1]]⟩] ⟨"X", [2], [], true, Complex.I⟩ =
+      [⟨"X", .fn 1, 1, fun a => [[a.getD 0, 0], [0, 1]]⟩] ⟨"X", [2], [], true, Complex.I, none⟩ =
     .ok (.gate [2] 1 [[Complex.I, 0], [0, 1]]) := by
   rw [resolve_user_spec _ _ _ ⟨"X", .fn 1, 1, fun a => [[a.getD 0, 0], [0, 1]]⟩ (by decide) (by simp)]
   simp
 
 /-- a name absent from the user table is resolved by the library, placed on `controls + targets`
-(`targets` when `controls is None`); GLOBALPHASE is the scalar whatever the tables say -/
+(`targets` when `controls is None`); GLOBALPHASE is the scalar whatever the tables say.  The library's
+matrices are fixed ("acts on the targets when all control qubits are 1"): an explicit `control_value` is
+accepted only when the gate has controls and the value is the all-ones mask `2^k - 1`; any other value is
+**refused** (`controlValue`) before the name is looked at — the library has no matrix for it. -/
 theorem resolve_library_spec {A : Type} (lib : Library A ℂ) (ug : List (UserGate A ℂ)) (r : GateReq A) :
     (r.name = "GLOBALPHASE" → resolveGate lib ug r = .ok (.phase (lib.phase r.arg))) ∧
     (r.name ≠ "GLOBALPHASE" → (ug.find? fun u => u.name == r.name) = none →
       resolveGate lib ug r =
+        if r.fixedControlOK = false then .error .controlValue else
         match lib.compact r.name r.arg with
         | some (m, U) => .ok (.gate (if r.controlsNone then r.targets else r.controls ++ r.targets) m U)
         | none => .error .unknownGate) :=
   ⟨resolveGate_phase lib ug r, fun h1 h2 =>
-    (resolveGate_library lib ug r h1 h2).trans (by cases lib.compact r.name r.arg <;> rfl)⟩
-example : resolveGate (⟨fun _ _ => some (2, []), fun _ => 1⟩ : Library ℂ ℂ) [] ⟨"CNOT", [0], [3], false, 0⟩ =
+    (resolveGate_library lib ug r h1 h2).trans (by
+      cases r.fixedControlOK with
+      | false => rfl
+      | true => cases lib.compact r.name r.arg <;> rfl)⟩
+example : resolveGate (⟨fun _ _ => some (2, []), fun _ => 1⟩ : Library ℂ ℂ) [] ⟨"CNOT", [0], [3], false, 0, none⟩ =
     .ok (.gate [3, 0] 2 []) := by
-  simp [resolveGate, getGateUnitary, GateReq.allQubits]
+  simp [resolveGate, getGateUnitary, GateReq.allQubits, GateReq.fixedControlOK]
+
+/-- **`control_value_spec`.** Which explicit control values a library gate accepts: none given — accepted;
+`v` given — accepted iff the gate lists `k ≥ 1` controls and `v = 2^k - 1`.  So a two-control gate
+(TOFFOLI) accepts exactly 3 and refuses 0, 1, 2. -/
+theorem control_value_spec {A : Type} (r : GateReq A) :
+    r.fixedControlOK = true ↔
+      (r.controlValue = none ∨
+        ∃ v, r.controlValue = some v ∧ r.controlsNone = false ∧ r.controls ≠ [] ∧ v = 2 ^ r.controls.length - 1) := by
+  unfold GateReq.fixedControlOK
+  cases r.controlValue with
+  | none => simp
+  | some v => simp; tauto
+example : ((List.range 4).map fun v => (⟨"TOFFOLI", [2], [0, 1], false, (), some v⟩ : GateReq Unit).fixedControlOK)
+      = [false, false, false, true] ∧
+    ((List.range 2).map fun v => (⟨"CNOT", [1], [0], false, (), some v⟩ : GateReq Unit).fixedControlOK) = [false, true] ∧
+    (⟨"TOFFOLI", [0, 1, 2], [], true, (), some 3⟩ : GateReq Unit).fixedControlOK = false := by decide
 
 /-- **Circuits of user gates, end to end**: for every register size, user table and list of gate objects
 naming table entries (stored operators, 0- and 1-parameter functions; `controls is None`; targets
@@ -309,7 +332,7 @@ theorem user_circuit_run_eq_den {A : Type} (N : ℕ) (lib : Library A ℂ) (ug :
   exact ⟨T', h1, g1, g3, fun p hp => toPGate_gate_den N _ _ _ (h p hp).nodup (h p hp).range⟩
 -- non-vacuity: a 1-parameter user function on qubit 2 of 3
 example : UserCircuitOK 3 [(⟨"UA", .fn 1, 1, fun a => [[a.getD 0, 0], [0, 1]]⟩ : UserGate ℂ ℂ)]
-    ⟨"UA", [2], [], true, Complex.I⟩ ⟨"UA", .fn 1, 1, fun a => [[a.getD 0, 0], [0, 1]]⟩ :=
+    ⟨"UA", [2], [], true, Complex.I, none⟩ ⟨"UA", .fn 1, 1, fun a => [[a.getD 0, 0], [0, 1]]⟩ :=
   ⟨by decide, by simp, rfl, Or.inr (Or.inr rfl), by simp, by simp, rfl, by intro a row hr; simp at hr; rcases hr with rfl | rfl <;> rfl⟩
 
 /-! ## `propagators(expand, ignore_measurement)`, the right-to-left product, the `expand=False` pipeline -/
@@ -425,7 +448,7 @@ theorem run_reads_current_fields {A β : Type} (ev : List (GateReq A) → β) (g
   runHist_eval_last ev gs ops
 -- non-vacuity: CNOT(0→1), RY(1); evaluated, RY moved to qubit 2, CNOT re-targeted to 2→0, evaluated again
 example : runHist (fun gs => gs.map GateReq.allQubits)
-      [(⟨"CNOT", [1], [0], false, ()⟩ : GateReq Unit), ⟨"RY", [1], [], true, ()⟩]
+      [(⟨"CNOT", [1], [0], false, (), none⟩ : GateReq Unit), ⟨"RY", [1], [], true, (), none⟩]
       [.eval, .setTargets 1 [2], .setControls 0 (some [2]), .setTargets 0 [0], .eval]
     = [[[0, 1], [1]], [[2, 0], [2]]] := by decide
 
